@@ -73,6 +73,17 @@ def cases(tier, seed):
     def sblock(d):
         items = [sexpr(d) for _ in range(rng.randint(1, 3))]
         return '(%s)' % '; '.join(items)
+    # functions created inside nested scopes that READ outer variables, returned to the outer block, and called after the
+    # outer block has re-bound those variables: a function value refers to the bindings of its definition site, it does
+    # not snapshot them
+    inner_reads = ['$seen := $x', '$x', '[$x, $y]', '$x + 1', '$string($y)', '$exists($z)']
+    makers = ['function(){$x}', 'function(){[$x, $y]}', 'function($k){$x + $k}', 'function(){function(){$x}}()', 'function(){$y & "/" & $x}']
+    for rd, mk in itertools.product(inner_reads, makers):
+        for rebind in ['$x := 2', '$x := $x + 10', '$y := "later"', '$x := 5; $y := "q"', '($x := 99)', 'nothing']:
+            arg = '3' if '$k' in mk else ''
+            add('($x := 1; $y := "first"; $get := (%s; %s); %s; $get(%s))' % (rd, mk, rebind, arg), doc, ('scope-closure',))
+            add('($x := 1; $y := "first"; $mk := function(){(%s; %s)}; $get := $mk(); %s; [$get(%s), $mk()(%s)])' % (rd, mk, rebind, arg, arg), doc, ('scope-closure',))
+            add('($x := 1; $y := "first"; $gs := [1,2].(%s; %s); %s; $gs[0](%s))' % (rd, mk, rebind, arg), doc, ('scope-closure',))
     for i in range(900 if tier == 'quick' else 60000):
         pre = []
         for v in rng.sample(VARS, rng.randint(0, 3)):
